@@ -881,3 +881,44 @@ def check_graph_rebound(ctx):
                       f'{func.name}: {sorted(graph_vars)} used as given',
                       at=func.where(), nontrivial=False)
     ctx.floor('GRAPH-WHOLE-backend', n, 2, 'backend functions taking a graph')
+
+
+def check_decision_inputs(ctx):
+    """Everything the release decision READS from the environment is read
+    inside the atomic region: the arguments bound to the decision function
+    before `env.atomically(...)` runs it (partial / lambda) are the task and
+    its dependency collections, nothing computed from the environment.  A
+    status or clock read outside (hoisted "to keep the critical section
+    short") can be stale by the time the decision uses it: a worker
+    publishes in between (time of check / time of use)."""
+    program = ctx.program
+    sites = find_decision_site(program)
+    ctx.floor('ENQ-INPUTS', len(sites), 1, 'decision call site')
+    func, call, _decide, bound, env_expr, _atomic = sites[0]
+    defs = {}
+    for node in ast.walk(func.node):
+        if isinstance(node, ast.Assign) and len(node.targets) == 1 and \
+                isinstance(node.targets[0], ast.Name):
+            defs.setdefault(node.targets[0].id, []).append(node.value)
+
+    def reads_env(expr, depth=0):
+        for node in ast.walk(expr):
+            if isinstance(node, ast.Name) and node.id == env_expr:
+                return node
+            if isinstance(node, ast.Attribute) and dotted(node) == env_expr:
+                return node
+            if isinstance(node, ast.Name) and depth < 3:
+                for val in defs.get(node.id, []):
+                    found = reads_env(val, depth + 1)
+                    if found is not None:
+                        return found
+        return None
+    for arg in bound:
+        found = reads_env(arg)
+        ctx.decide('ENQ-INPUTS', func,
+                   f'argument bound before the atomic region: '
+                   f'{txt(arg)[:50]}', found is None, at=func.where(call),
+                   detail=None if found is None else
+                   f'computed from the environment (`{env_expr}`) outside '
+                   f'env.atomically: stale when a worker publishes between '
+                   f'this read and the decision')
